@@ -392,7 +392,31 @@ func c15(r *core.Run) {
 		}
 		r.Check(nRes > 0 && bad == "", "G1", core.FuncName(qev), "query-event-resource-carries-the-group", p.Pos(qev.Pos()), "the query event keeps a copy of the resource including its group", "the resource kept in the query event (stored "+bad+") is not the resource with its group: the listener and the expiry queue under an empty group id, i.e. every query callback becomes an independent work item - callbacks of one query event overlap each other, the resource's handlers and the final nil call")
 	}
-	exp := methodNamed(p, "", "Service", "queryEventExpire")
+	// the expiry function by role: what the service hands to timerqueue.New as the callback
+	var exp *ssa.Function
+	for _, fn := range p.FuncsOfPkg("") {
+		for _, c := range core.Calls(fn) {
+			cal := c.Common().StaticCallee()
+			if cal == nil || !strings.HasSuffix(cal.String(), "timerqueue.New") || len(c.Common().Args) == 0 {
+				continue
+			}
+			switch x := core.Strip(c.Common().Args[0]).(type) {
+			case *ssa.MakeClosure:
+				if w, _ := x.Fn.(*ssa.Function); w != nil {
+					if m := boundMethod(w); m != nil {
+						exp = m
+					} else {
+						exp = w
+					}
+				}
+			case *ssa.Function:
+				exp = x
+			}
+		}
+	}
+	if exp == nil {
+		exp = methodNamed(p, "", "Service", "queryEventExpire")
+	}
 	if exp == nil {
 		r.Unres("G1", "queryEventExpire", "missing")
 		return
